@@ -347,6 +347,16 @@ pub fn run(args: &Args) -> Report {
             c.opt_alias = OptStrAlias(Some(s.clone()));
             cases.push((c, "optAlias".into(), class_of(s)));
         }
+        // long collections (every length up to 70, distinct elements in a non-sorted order): order
+        // and multiplicity survive however many pairs the query holds
+        for n in 0..=70usize {
+            let mut c = base.clone();
+            c.strs = (0..n).map(|i| format!("s{:02}", (i * 37 + 11) % 101)).collect();
+            c.list_alias = IntListAlias((0..n as i32).map(|i| (i * 53 + 7) % 97 - 40).collect());
+            c.colors = (0..n % 9).map(|i| [Color::Red, Color::Green, Color::DarkBlue][i % 3].clone()).collect();
+            c.str_set = (0..n / 2).map(|i| format!("t{}", i)).collect();
+            cases.push((c, "long-lists".into(), format!("n={}", n)));
+        }
         for a in &reduced {
             for b in &reduced {
                 let mut c = base.clone();
